@@ -163,10 +163,70 @@ type pend = {
 
 let tree_size_limit = 6      (* unfolding is exponential in the number of levels *)
 
+(* wide cases (header wide=1): managers with 17..70 variables, where value tables over all 3^n assignments are
+   out of reach.  Every slot carries the EXPRESSION that built it; T3EVALA h <assignment> (one letter t/u/f per
+   variable) must return the value of that expression under the fixed tables (extracted k_not / table / ite3).
+   No snapshot is lifted here. *)
+type wexpr = WC of Model.tri | WV of int | WN of wexpr | WB of Model.binop * wexpr * wexpr | WI of wexpr * wexpr * wexpr
+
+let rec weval (a : string) (e : wexpr) : Model.tri =
+  match e with
+  | WC t -> t
+  | WV v -> (match a.[v] with 't' -> Model.TT | 'u' -> Model.TU | _ -> Model.TF)
+  | WN x -> Model.k_not (weval a x)
+  | WB (op, x, y) -> Model.table op (weval a x) (weval a y)
+  | WI (f, g, h) -> Model.ite3 (weval a f) (weval a g) (weval a h)
+
+let wide_case c =
+  let failed = ref false in
+  let fail step msg =
+    stat "c11s_bad_prop" 1;
+    if not !failed then (failed := true; verdict_bad c step "prop" ("prop=C11 wide eval: " ^ msg)) in
+  let ex : (int, wexpr) Hashtbl.t = Hashtbl.create 64 in
+  List.iteri
+    (fun i l ->
+      if l = "HANG" || starts_with l "PANIC" || starts_with l "CRASH" then fail i ("implementation panicked/hung: " ^ l)
+      else begin
+        let ops, res = split_arrow l in
+        let get a = Hashtbl.find_opt ex (slot_of a) in
+        if not (starts_with res "err") then
+          match split_ws ops with
+          | [ "T3CONST"; d; v ] -> Hashtbl.replace ex (slot_of d) (WC (const_of v))
+          | [ "T3VAR"; d; v ] -> Hashtbl.replace ex (slot_of d) (WV (int_of_string v))
+          | [ "T3NOT"; d; a ] ->
+            (match get a with Some x -> Hashtbl.replace ex (slot_of d) (WN x) | None -> Hashtbl.remove ex (slot_of d))
+          | [ op; d; a; b ] when is_bin op ->
+            (match get a, get b with
+             | Some x, Some y -> Hashtbl.replace ex (slot_of d) (WB (binop_of op, x, y))
+             | _ -> Hashtbl.remove ex (slot_of d))
+          | [ "T3ITE"; d; f; g; h ] ->
+            (match get f, get g, get h with
+             | Some x, Some y, Some z -> Hashtbl.replace ex (slot_of d) (WI (x, y, z))
+             | _ -> Hashtbl.remove ex (slot_of d))
+          | [ "CLONE"; d; a ] ->
+            (match get a with Some x -> Hashtbl.replace ex (slot_of d) x | None -> Hashtbl.remove ex (slot_of d))
+          | [ ("DROP" | "DROPT"); a ] -> Hashtbl.remove ex (slot_of a)
+          | [ "DROPALL" ] -> Hashtbl.reset ex
+          | [ "T3EVALA"; a; asg ] ->
+            (match get a, split_ws res with
+             | Some x, [ "ev3"; v ] ->
+               stat "c11s_wide_eval" 1;
+               let m = weval asg x in
+               if v <> show_tri m then
+                 fail i (Printf.sprintf "eval of h%d under %s is %s, the fixed tables applied to the expression that built it give %s"
+                           (slot_of a) asg v (show_tri m))
+             | _ -> stat "c11s_unresolved" 1)
+          | _ -> ()
+      end)
+    c.lines;
+  stat "c11s_wide_cases" 1;
+  if not !failed then verdict_ok c
+
 let () =
   iter_cases stdin (fun c ->
       let kname = match param c "kind" with Some k -> k | None -> "bdd" in
       if kname <> "tdd" then verdict_ok c
+      else if param c "wide" = Some "1" then wide_case c
       else begin
         let failed = ref false in
         let fail kind step msg =
